@@ -21,7 +21,11 @@ Record hist_params := mkHP {
   hp_pow : pow_params;
   hp_gcd : gcd_params;
   hp_roots : roots_params;
-  hp_radix : radix_params
+  hp_radix : radix_params;
+  hp_iter : iter_params;
+  hp_serde : serde_params;
+  hp_bytes : bytes_params;
+  hp_sign : sign_params
 }.
 (** the initial guess of the Newton iterations: the no_std one, 2^max_bits (the std build starts from
     an f64 estimate instead; the result does not depend on the guess: C11_guess_independent) *)
@@ -73,18 +77,18 @@ Definition construct (P : hist_params) (c : ctor) : outcome obj :=
   | CUVec d => Ret (OU (biguint_from_vec d))
   | CUNew w => Ret (OU (unew w))
   | CUSlice w => Ret (OU (ufrom_slice w))
-  | CUBytesLe b => do r <- ufrom_bytes_le b; Ret (OU r)
-  | CUBytesBe b => do r <- ufrom_bytes_be b; Ret (OU r)
-  | CUSerde w => do r <- of_opt (de_biguint_tokens None w) 1410; Ret (OU r)
+  | CUBytesLe b => do r <- ufrom_bytes_le (hp_bytes P) b; Ret (OU r)
+  | CUBytesBe b => do r <- ufrom_bytes_be (hp_bytes P) b; Ret (OU r)
+  | CUSerde w => do r <- of_opt (de_biguint_tokens (hp_serde P) None w) 1410; Ret (OU r)
   | CIParts s d => Ret (OI (from_biguint s (biguint_from_vec d)))
   | CINew s w => Ret (OI (inew s w))
   | CISlice s w => Ret (OI (ifrom_slice s w))
-  | CIBytesLe s b => do r <- ifrom_bytes_le s b; Ret (OI r)
-  | CIBytesBe s b => do r <- ifrom_bytes_be s b; Ret (OI r)
-  | CISignedLe b => do r <- from_signed_bytes_le b; Ret (OI r)
-  | CISignedBe b => do r <- from_signed_bytes_be b; Ret (OI r)
-  | CISerde s w => do r <- of_opt (de_bigint (ser_sign s) None w) 1411; Ret (OI r)
-  | CIFromU d => Ret (OI (ifrom_u (biguint_from_vec d)))
+  | CIBytesLe s b => do r <- ifrom_bytes_le (hp_bytes P) s b; Ret (OI r)
+  | CIBytesBe s b => do r <- ifrom_bytes_be (hp_bytes P) s b; Ret (OI r)
+  | CISignedLe b => do r <- from_signed_bytes_le (hp_bytes P) b; Ret (OI r)
+  | CISignedBe b => do r <- from_signed_bytes_be (hp_bytes P) b; Ret (OI r)
+  | CISerde s w => do r <- of_opt (de_bigint (hp_serde P) (sign_z s) None w) 1411; Ret (OI r)
+  | CIFromU d => Ret (OI (ifrom_u (hp_sign P) (biguint_from_vec d)))
   | CURadixLe b r => do o <- u_from_radix_le (hp_radix P) b r; do d <- of_opt o 1412; Ret (OU d)
   | CURadixBe b r => do o <- u_from_radix_be (hp_radix P) b r; do d <- of_opt o 1412; Ret (OU d)
   | CIRadixLe s b r => do o <- i_from_radix_le (hp_radix P) s b r; do x <- of_opt o 1413; Ret (OI x)
@@ -183,8 +187,8 @@ Definition istep (P : hist_params) (x : bigint) (o : op) : outcome bigint :=
   | OAssign s w => Ret (iassign_from_slice x s w)
   | ONeg => Ret (ineg x)
   | ONot => inot (hp_as P) x
-  | OAbs => Ret (iabs x)
-  | OSignum => Ret (isignum x)
+  | OAbs => Ret (iabs (hp_sign P) x)
+  | OSignum => Ret (isignum (hp_sign P) x)
   | ODivFloor (OI y) => idiv_floor (hp_div P) x (prep_i y)
   | OModFloor (OI y) => imod_floor (hp_div P) x (prep_i y)
   | ODivEuclid (OI y) => idiv_euclid (hp_div P) x (prep_i y)
@@ -269,35 +273,35 @@ Definition oeq (a b : obj) : outcome bool :=
   end.
 
 (** * Ord *)
-Definition ocmp (a b : obj) : outcome comparison :=
+Definition ocmp (sp : sign_params) (a b : obj) : outcome comparison :=
   match a, b with
   | OU x, OU y => ucmp x y
-  | OI x, OI y => icmp x y
+  | OI x, OI y => icmp sp x y
   | _, _ => ill
   end.
 
 (** `Ord::max(self, other)`: `other` unless `self > other`; `Ord::min`: `self` unless `other < self`. *)
-Definition omax (a b : obj) : outcome obj :=
-  do c <- ocmp a b; Ret (match c with Gt => a | _ => b end).
-Definition omin (a b : obj) : outcome obj :=
-  do c <- ocmp a b; Ret (match c with Gt => b | _ => a end).
+Definition omax (sp : sign_params) (a b : obj) : outcome obj :=
+  do c <- ocmp sp a b; Ret (match c with Gt => a | _ => b end).
+Definition omin (sp : sign_params) (a b : obj) : outcome obj :=
+  do c <- ocmp sp a b; Ret (match c with Gt => b | _ => a end).
 
 (** a comparison sort driven by `cmp` only (stable insertion sort; `slice::sort` is some
     comparison sort: its result is determined by `cmp` up to the order of equal elements,
     and equal elements are identical objects here) *)
-Fixpoint oinsert (x : obj) (l : list obj) : outcome (list obj) :=
+Fixpoint oinsert (sp : sign_params) (x : obj) (l : list obj) : outcome (list obj) :=
   match l with
   | [] => Ret [x]
-  | y :: r => do c <- ocmp x y;
+  | y :: r => do c <- ocmp sp x y;
               match c with
-              | Gt => do r' <- oinsert x r; Ret (y :: r')
+              | Gt => do r' <- oinsert sp x r; Ret (y :: r')
               | _ => Ret (x :: l)
               end
   end.
-Fixpoint osort (l : list obj) : outcome (list obj) :=
+Fixpoint osort (sp : sign_params) (l : list obj) : outcome (list obj) :=
   match l with
   | [] => Ret []
-  | x :: r => do r' <- osort r; oinsert x r'
+  | x :: r => do r' <- osort sp r; oinsert sp x r'
   end.
 
 (** * Hash: the stream of 64-bit words written to the `Hasher`.
@@ -323,19 +327,19 @@ Definition export_of (P : hist_params) (e : export) (s : obj) : outcome (list Z)
   match s, e with
   | OU d, EText r => u_to_str_radix (hp_radix P) d r
   | OI x, EText r => i_to_str_radix (hp_radix P) x r
-  | OU d, EU32 => uto_u32_digits d
+  | OU d, EU32 => uto_u32_digits (hp_iter P) d
   | OU d, EU64 => Ret (uto_u64_digits d)
-  | OU d, EBytesLe => uto_bytes_le d
-  | OU d, EBytesBe => uto_bytes_be d
+  | OU d, EBytesLe => uto_bytes_le (hp_bytes P) d
+  | OU d, EBytesBe => uto_bytes_be (hp_bytes P) d
   | OU d, EBits => Ret [ubits d]
   | OU d, ECountOnes => Ret [ucount_ones d]
   | OU d, ETrailingZeros => Ret (match utrailing_zeros d with Some k => [k] | None => [] end)
-  | OI x, EU32 => do r <- ito_u32_digits x; Ret (sign_z (fst r) :: snd r)
+  | OI x, EU32 => do r <- ito_u32_digits (hp_iter P) x; Ret (sign_z (fst r) :: snd r)
   | OI x, EU64 => let r := ito_u64_digits x in Ret (sign_z (fst r) :: snd r)
-  | OI x, EBytesLe => do r <- ito_bytes_le x; Ret (sign_z (fst r) :: snd r)
-  | OI x, EBytesBe => do r <- ito_bytes_be x; Ret (sign_z (fst r) :: snd r)
-  | OI x, ESignedLe => to_signed_bytes_le x
-  | OI x, ESignedBe => to_signed_bytes_be x
+  | OI x, EBytesLe => do r <- ito_bytes_le (hp_bytes P) x; Ret (sign_z (fst r) :: snd r)
+  | OI x, EBytesBe => do r <- ito_bytes_be (hp_bytes P) x; Ret (sign_z (fst r) :: snd r)
+  | OI x, ESignedLe => to_signed_bytes_le (hp_bytes P) x
+  | OI x, ESignedBe => to_signed_bytes_be (hp_bytes P) x
   | OI x, EBits => Ret [ibits x]
   | OI x, ETrailingZeros => Ret (match itrailing_zeros x with Some k => [k] | None => [] end)
   | _, _ => ill
@@ -377,11 +381,11 @@ Record pair_obs := mkPO {
 
 Definition observe_pair (P : hist_params) (a b : obj) : outcome pair_obs :=
   do e <- oeq a b;
-  do c <- ocmp a b;
+  do c <- ocmp (hp_sign P) a b;
   do ha <- hash_stream a;
   do hb <- hash_stream b;
   do xa <- all_exports P (exports_for a) a;
   do xb <- all_exports P (exports_for b) b;
-  do mx <- omax a b; do emx <- oeq mx a;
-  do mn <- omin a b; do emn <- oeq mn a;
+  do mx <- omax (hp_sign P) a b; do emx <- oeq mx a;
+  do mn <- omin (hp_sign P) a b; do emn <- oeq mn a;
   Ret (mkPO e c (list_eqb ha hb) (lists_eqb xa xb) emx emn (nosign_iff_zero_b a) (nosign_iff_zero_b b)).
